@@ -234,7 +234,11 @@ func VerifC20Cache() {
 					vrt.Assert("a cache miss asks the beacon node for the requested epoch", b.lastEp == ep)
 				}
 			}
-			// private copies: nothing returned now shares memory with what an earlier request returned
+			// private copies: nothing returned points into the cache's own storage ...
+			for x := 0; x < len(res.ptr); x++ {
+				vrt.Assert("callers receive private copies, not pointers into the cache", !vCacheAliases(c, types[len(types)-1], ep, res.ptr[x]))
+			}
+			// ... and nothing returned now shares memory with what an earlier request returned
 			for x := 0; x < len(res.ptr); x++ {
 				for y := 0; y < len(prev.ptr); y++ {
 					vrt.Assert("callers receive private copies", !vrt.SameObject(res.ptr[x], prev.ptr[y]))
@@ -251,6 +255,34 @@ func VerifC20Cache() {
 		}
 	}
 	vrt.Reach("end")
+}
+
+// vCacheAliases: does p point at an element of the slice the cache holds for (duty type, epoch)?
+func vCacheAliases(c *DutiesCache, typ int, ep eth2p0.Epoch, p any) bool {
+	switch typ {
+	case 0:
+		ds := c.proposerDuties.duties[ep]
+		for i := range ds {
+			if vrt.SameObject(p, &ds[i]) {
+				return true
+			}
+		}
+	case 1:
+		ds := c.attesterDuties.duties[ep]
+		for i := range ds {
+			if vrt.SameObject(p, &ds[i]) {
+				return true
+			}
+		}
+	default:
+		ds := c.syncDuties.duties[ep]
+		for i := range ds {
+			if vrt.SameObject(p, &ds[i]) {
+				return true
+			}
+		}
+	}
+	return false
 }
 
 func init() { VerifHarnesses["VerifC20Intf"] = VerifC20Intf }
